@@ -63,6 +63,7 @@ func devExec(t *devTarget, in []byte) (class string, detail string) {
 	var chain string
 	runtime.ReadMemStats(&devMem)
 	before := devMem.TotalAlloc
+	verifrt.SeqClear()
 	verifrt.Arm(budget)
 	func() {
 		defer func() {
@@ -77,6 +78,26 @@ func devExec(t *devTarget, in []byte) (class string, detail string) {
 	exceeded, at, _ := verifrt.Exceeded()
 	runtime.ReadMemStats(&devMem)
 	alloc := devMem.TotalAlloc - before
+	if blocked := verifrt.SeqBlocked(); blocked != "" {
+		// the library's own recover() may have turned the unwinding into an ordinary error return
+		return "blocks-forever", "the call would never return: " + blocked
+	}
+	if held := verifrt.SeqHeld(); len(held) > 0 {
+		// the call returned holding a lock: whoever needs it next waits for ever. Shown by giving the
+		// same input once more; then the lock is released by force so that later executions start clean.
+		verifrt.SeqClear()
+		func() {
+			defer func() { recover() }()
+			t.Run(append(make([]byte, 0, len(in)), in...))
+		}()
+		again := verifrt.SeqBlocked()
+		verifrt.SeqForceRelease()
+		verifrt.SeqClear()
+		if again != "" {
+			return "wedges-the-next-call", fmt.Sprintf("the call returned while holding a lock acquired in %s; the same input given once more never returns: %s", strings.Join(held, "; "), again)
+		}
+		return "returns-holding-a-lock", fmt.Sprintf("the call returned while holding a lock acquired in %s", strings.Join(held, "; "))
+	}
 	switch {
 	case exceeded:
 		return "steps-exceeded:" + at, fmt.Sprintf("more than %d steps for a %d-byte input (budget %d*len+%d), still running in %s", budget, len(in), devStepsPerByte, devStepsBase, at)
@@ -385,6 +406,10 @@ func devRun(w *Worker, targets []*devTarget, seedsFor func(t *devTarget) []*devS
 	var idx int64
 	var execs int64
 	outcomes := map[string]int64{}
+	// one call at a time on this goroutine, nothing else runs library code: a lock found held can never
+	// be released (see verifrt.SetSequential)
+	verifrt.SetSequential(true)
+	defer verifrt.SetSequential(false)
 	for _, t := range targets {
 		run := func(seed, dev string, in []byte) {
 			idx++
@@ -438,6 +463,8 @@ func outcomeGroup(class string) string {
 
 // devReplay re-executes one recorded input.
 func devReplay(r *ev.Run, targets []*devTarget, path string) {
+	verifrt.SetSequential(true)
+	defer verifrt.SetSequential(false)
 	var c devCase
 	if err := ev.LoadReplay(path, &c); err != nil {
 		fmt.Println("HARNESS-ERROR: cannot load replay:", err)
